@@ -71,6 +71,14 @@ Proof.
   destruct (existsb (Nat.eqb s) l); split; discriminate.
 Qed.
 
+Lemma claim_cases : forall E v c s m,
+  claim E v c s m = m \/ claim E v c s m = csm_insert (key E c) (tgt E s) m.
+Proof. intros. unfold claim. destruct (claim_needs_positive_pid v && _); auto. Qed.
+
+Lemma claim_always : forall E v c s m, claim_needs_positive_pid v = false ->
+  claim E v c s m = csm_insert (key E c) (tgt E s) m.
+Proof. intros E v c s m H. unfold claim. rewrite H. reflexivity. Qed.
+
 Lemma updc_eq : forall f c x, updc f c x c = x.
 Proof. intros. unfold updc. rewrite Nat.eqb_refl. reflexivity. Qed.
 Lemma updc_neq : forall f c x c', c' <> c -> updc f c x c' = f c'.
@@ -207,6 +215,13 @@ Lemma safe_step : forall st o, Own st -> Safe st -> Safe (step E v st o).
 Proof.
   intros st o HO H. split_step o; intros k' t' L; cbn [csm cl sv] in *.
   - (* Checkout c s *)
+    destruct (claim_cases E v c s (csm st)) as [CL|CL]; rewrite CL in L.
+    { (* the claim was skipped (mutant): nothing new in the map *)
+      destruct (H _ _ L) as (c1 & s1 & K & T & Hh & D).
+      assert (c1 <> c) by congruence.
+      exists c1, s1. rewrite updc_neq by auto. repeat split; auto.
+      destruct D as [D|D]; [left|right; auto].
+      rewrite upds_neq; auto. intros ->. congruence. }
     destruct (ckey_eqb_spec (key E c) k') as [<-|Nk].
     + rewrite lookup_insert_eq in L. inversion L; subst.
       exists c, s. rewrite updc_eq, upds_eq. cbn. auto.
@@ -280,7 +295,10 @@ Lemma strong_step : exit_entry_first v = true ->
   forall st o, Own st -> Strong st -> Strong (step E v st o).
 Proof.
   intros EF st o HO H. split_step o; intros k' t' L; cbn [csm cl sv] in *.
-  - destruct (ckey_eqb_spec (key E c) k') as [<-|Nk].
+  - destruct (claim_cases E v c s (csm st)) as [CL|CL]; rewrite CL in L.
+    { destruct (H _ _ L) as (c1 & s1 & K & T & D).
+      exists c1, s1. repeat split; auto. rewrite upds_neq; auto. intros ->. congruence. }
+    destruct (ckey_eqb_spec (key E c) k') as [<-|Nk].
     + rewrite lookup_insert_eq in L. inversion L; subst.
       exists c, s. rewrite upds_eq. auto.
     + rewrite lookup_insert_neq in L by auto.
@@ -314,11 +332,12 @@ Qed.
 Lemma compl_init : Compl init.
 Proof. intros c s; cbn; discriminate. Qed.
 
-Lemma compl_step : key_inj -> reload_prunes v = false ->
+Lemma compl_step : key_inj -> reload_prunes v = false -> claim_needs_positive_pid v = false ->
   forall st o, Own st -> Compl st -> Compl (step E v st o).
 Proof.
-  intros INJ RP st o HO H. split_step o; intros c' s' Hs Hg; cbn [csm cl sv gcancel] in *.
+  intros INJ RP CP st o HO H. split_step o; intros c' s' Hs Hg; cbn [csm cl sv gcancel] in *.
   - (* Checkout c s *)
+    rewrite (claim_always E v c s (csm st) CP).
     destruct (Nat.eq_dec s' s) as [->|Ns].
     + rewrite upds_eq in Hs. inversion Hs; subst. apply lookup_insert_eq.
     + rewrite upds_neq in Hs by auto.
@@ -403,10 +422,10 @@ Proof.
   - split; [apply own_init|apply strong_init].
 Qed.
 
-Lemma run_own_compl : key_inj -> reload_prunes v = false ->
+Lemma run_own_compl : key_inj -> reload_prunes v = false -> claim_needs_positive_pid v = false ->
   forall ops, Own (run E v ops) /\ Compl (run E v ops).
 Proof.
-  intros INJ RP ops. unfold run. apply (fold_inv (fun st => Own st /\ Compl st)).
+  intros INJ RP CP ops. unfold run. apply (fold_inv (fun st => Own st /\ Compl st)).
   - intros st o [A B]. split; [apply own_step|apply compl_step]; auto.
   - split; [apply own_init|apply compl_init].
 Qed.
@@ -529,7 +548,8 @@ Proof.
   induction ops as [|o r IH]; cbn; intros st H N; auto.
   apply andb_prop in N. destruct N as [N1 N2]. apply IH; auto. clear IH N2.
   split_step o; cbn [csm]; try (apply lookup_remove_none; auto).
-  - rewrite lookup_insert_neq; auto. intros X. rewrite X in N1.
+  - destruct (claim_cases E v c s (csm st)) as [CL|CL]; rewrite CL; auto.
+    rewrite lookup_insert_neq; auto. intros X. rewrite X in N1.
     destruct (ckey_eqb_spec k k); [discriminate|congruence].
   - destruct (exit_entry_first v); auto. apply lookup_remove_none; auto.
   - apply lookup_remove_all_none; auto.
@@ -565,18 +585,19 @@ Qed.
 
 (* ---- completeness *)
 
-Lemma reaches_holder_guarded : key_inj -> reload_prunes v = false -> forall ops c s,
+Lemma reaches_holder_guarded : key_inj -> reload_prunes v = false -> claim_needs_positive_pid v = false ->
+  forall ops c s,
   sv (run E v ops) s = HeldBy c -> known_cancel_once E v ops c = false ->
   cancel_out (run E v ops) (key E c) = Contact (tgt E s).
 Proof.
-  intros INJ RP ops c s H G. apply cancel_out_contact. apply (proj2 (run_own_compl INJ RP ops)); auto.
+  intros INJ RP CP ops c s H G. apply cancel_out_contact. apply (proj2 (run_own_compl INJ RP CP ops)); auto.
 Qed.
 
 Lemma reaches_holder : key_inj -> cancel_drop_removes v = false -> reload_prunes v = false ->
-  forall ops c s,
+  claim_needs_positive_pid v = false -> forall ops c s,
   sv (run E v ops) s = HeldBy c -> cancel_out (run E v ops) (key E c) = Contact (tgt E s).
 Proof.
-  intros INJ CD RP ops c s H. apply reaches_holder_guarded; auto.
+  intros INJ CD RP CP ops c s H. apply reaches_holder_guarded; auto.
   unfold known_cancel_once. apply run_ghost_off; auto.
 Qed.
 
@@ -643,6 +664,16 @@ Proof.
   intros st o H. split_step o; cbn [accepted]; try congruence. rewrite H. reflexivity.
 Qed.
 
+(** A graceful shutdown touches nothing that cancel handling reads. *)
+Lemma shutdown_inert : forall st,
+  csm (step E v st Shutdown) = csm st /\ cl (step E v st Shutdown) = cl st /\
+  sv (step E v st Shutdown) = sv st /\ pending (step E v st Shutdown) = pending st /\
+  accepted (step E v st Shutdown) = accepted st /\ admin_only (step E v st Shutdown) = true.
+Proof. intros st. cbn. repeat split. Qed.
+
+Lemma cancel_eff_plain : shutdown_refuses_cancel v = false -> forall st k, cancel_eff v st k = cancel_out st k.
+Proof. intros SR st k. unfold cancel_eff. rewrite SR. reflexivity. Qed.
+
 End Invariants.
 
 (* ------------------------------------------------------------------ witnesses *)
@@ -663,13 +694,13 @@ Qed.
     Whatever the other switch is. *)
 Definition window_ops : list op := [Checkout 0 0; ExitDropGuard 0 true; Checkout 1 0].
 
-Lemma exit_window_refuted : forall cd rp cr la,
+Lemma exit_window_refuted : forall cd rp cr la sr cp,
   exists ops c1 c2 s, c1 <> c2 /\ key ex_env c1 <> key ex_env c2 /\
-    sv (run ex_env (mkVariant cd false rp cr la) ops) s = HeldBy c2 /\
-    cphase (cl (run ex_env (mkVariant cd false rp cr la) ops) c1) = Exiting /\
-    cancel_out (run ex_env (mkVariant cd false rp cr la) ops) (key ex_env c1) = Contact (tgt ex_env s).
+    sv (run ex_env (mkVariant cd false rp cr la sr cp) ops) s = HeldBy c2 /\
+    cphase (cl (run ex_env (mkVariant cd false rp cr la sr cp) ops) c1) = Exiting /\
+    cancel_out (run ex_env (mkVariant cd false rp cr la sr cp) ops) (key ex_env c1) = Contact (tgt ex_env s).
 Proof.
-  intros cd rp cr la. exists window_ops, 0, 1, 0. destruct cd, rp, cr, la; vm_compute; repeat split; try discriminate; reflexivity.
+  intros cd rp cr la sr cp. exists window_ops, 0, 1, 0. destruct cd, rp, cr, la, sr, cp; vm_compute; repeat split; try discriminate; reflexivity.
 Qed.
 
 (** The cancel-once defect of "the drop of the value that served a CancelRequest removes the key
@@ -678,11 +709,11 @@ Qed.
     holds s0.  Whatever the other switch is. *)
 Definition once_ops : list op := [Checkout 0 0; Cancel (key ex_env 0); CancelDrop (key ex_env 0)].
 
-Lemma cancel_once_refuted : forall ef rp cr la,
-  exists ops c s, sv (run ex_env (mkVariant true ef rp cr la) ops) s = HeldBy c /\
-    outcomes ex_env (mkVariant true ef rp cr la) ops = [Contact (tgt ex_env s)] /\
-    cancel_out (run ex_env (mkVariant true ef rp cr la) ops) (key ex_env c) = Silent.
-Proof. intros ef rp cr la. exists once_ops, 0, 0. destruct ef, rp, cr, la; vm_compute; repeat split; reflexivity. Qed.
+Lemma cancel_once_refuted : forall ef rp cr la sr cp,
+  exists ops c s, sv (run ex_env (mkVariant true ef rp cr la sr cp) ops) s = HeldBy c /\
+    outcomes ex_env (mkVariant true ef rp cr la sr cp) ops = [Contact (tgt ex_env s)] /\
+    cancel_out (run ex_env (mkVariant true ef rp cr la sr cp) ops) (key ex_env c) = Silent.
+Proof. intros ef rp cr la sr cp. exists once_ops, 0, 0. destruct ef, rp, cr, la, sr, cp; vm_compute; repeat split; reflexivity. Qed.
 
 (** A reload that prunes the map by address (a mutant; the code does not do this): c0 runs a
     statement on s0, the configuration is reloaded so that s0's address leaves it, and a
@@ -690,10 +721,10 @@ Proof. intros ef rp cr la. exists once_ops, 0, 0. destruct ef, rp, cr, la; vm_co
     connection lives until the transaction ends).  Whatever the other switches are. *)
 Definition reload_ops : list op := [Checkout 0 0; Reload [0]].
 
-Lemma reload_prune_refuted : forall cd ef cr la,
-  exists ops c s, sv (run ex_env (mkVariant cd ef true cr la) ops) s = HeldBy c /\
-    cancel_out (run ex_env (mkVariant cd ef true cr la) ops) (key ex_env c) = Silent.
-Proof. intros cd ef cr la. exists reload_ops, 0, 0. destruct cd, ef, cr, la; vm_compute; split; reflexivity. Qed.
+Lemma reload_prune_refuted : forall cd ef cr la sr cp,
+  exists ops c s, sv (run ex_env (mkVariant cd ef true cr la sr cp) ops) s = HeldBy c /\
+    cancel_out (run ex_env (mkVariant cd ef true cr la sr cp) ops) (key ex_env c) = Silent.
+Proof. intros cd ef cr la sr cp. exists reload_ops, 0, 0. destruct cd, ef, cr, la, sr, cp; vm_compute; split; reflexivity. Qed.
 
 (** Retrying the throw-away connection with the target copied at lookup time (a mutant; the code
     makes one attempt): c0 runs a statement on s0, the connection of its CancelRequest is refused,
@@ -702,15 +733,15 @@ Proof. intros cd ef cr la. exists reload_ops, 0, 0. destruct cd, ef, cr, la; vm_
 Definition late_ops : list op :=
   [Checkout 0 0; CancelRefused (key ex_env 0); ReleaseNormal 0 true; Checkout 1 0].
 
-Lemma late_delivery_refuted : forall cd ef rp la,
+Lemma late_delivery_refuted : forall cd ef rp la sr cp,
   exists ops c1 c2 s, c1 <> c2 /\ key ex_env c1 <> key ex_env c2 /\
-    held (cl (run ex_env (mkVariant cd ef rp true la) ops) c1) = None /\
-    cancel_out (run ex_env (mkVariant cd ef rp true la) ops) (key ex_env c1) = Silent /\
-    sv (run ex_env (mkVariant cd ef rp true la) ops) s = HeldBy c2 /\
-    late_out (run ex_env (mkVariant cd ef rp true la) ops) = Contact (tgt ex_env s).
+    held (cl (run ex_env (mkVariant cd ef rp true la sr cp) ops) c1) = None /\
+    cancel_out (run ex_env (mkVariant cd ef rp true la sr cp) ops) (key ex_env c1) = Silent /\
+    sv (run ex_env (mkVariant cd ef rp true la sr cp) ops) s = HeldBy c2 /\
+    late_out (run ex_env (mkVariant cd ef rp true la sr cp) ops) = Contact (tgt ex_env s).
 Proof.
-  intros cd ef rp la. exists late_ops, 0, 1, 0.
-  destruct cd, ef, rp, la; vm_compute; repeat split; try discriminate; reflexivity.
+  intros cd ef rp la sr cp. exists late_ops, 0, 1, 0.
+  destruct cd, ef, rp, la, sr, cp; vm_compute; repeat split; try discriminate; reflexivity.
 Qed.
 
 (** Looking the target up when the connection is accepted and using it when [handle] runs (a
@@ -720,16 +751,41 @@ Qed.
 Definition stale_ops : list op :=
   [Checkout 0 0; CancelAccept (key ex_env 0); ReleaseNormal 0 true; Checkout 1 0].
 
-Lemma stale_lookup_refuted : forall cd ef rp cr,
+Lemma stale_lookup_refuted : forall cd ef rp cr sr cp,
   exists ops c1 c2 s, c1 <> c2 /\ key ex_env c1 <> key ex_env c2 /\
-    held (cl (run ex_env (mkVariant cd ef rp cr true) ops) c1) = None /\
-    cancel_out (run ex_env (mkVariant cd ef rp cr true) ops) (key ex_env c1) = Silent /\
-    sv (run ex_env (mkVariant cd ef rp cr true) ops) s = HeldBy c2 /\
-    act_out (mkVariant cd ef rp cr true) (run ex_env (mkVariant cd ef rp cr true) ops) (key ex_env c1)
+    held (cl (run ex_env (mkVariant cd ef rp cr true sr cp) ops) c1) = None /\
+    cancel_out (run ex_env (mkVariant cd ef rp cr true sr cp) ops) (key ex_env c1) = Silent /\
+    sv (run ex_env (mkVariant cd ef rp cr true sr cp) ops) s = HeldBy c2 /\
+    act_out (mkVariant cd ef rp cr true sr cp) (run ex_env (mkVariant cd ef rp cr true sr cp) ops) (key ex_env c1)
       = Contact (tgt ex_env s).
 Proof.
-  intros cd ef rp cr. exists stale_ops, 0, 1, 0.
-  destruct cd, ef, rp, cr; vm_compute; repeat split; try discriminate; reflexivity.
+  intros cd ef rp cr sr cp. exists stale_ops, 0, 1, 0.
+  destruct cd, ef, rp, cr, sr, cp; vm_compute; repeat split; try discriminate; reflexivity.
+Qed.
+
+(** Refusing CancelRequests once a graceful shutdown has begun (a mutant): c0 is in the middle of
+    a statement when the shutdown starts (its transaction may finish); its CancelRequest would
+    reach s0 by the map, and is dropped. *)
+Definition shutdown_ops : list op := [Checkout 0 0; Shutdown].
+
+Lemma shutdown_refuted : forall cd ef rp cr la cp,
+  exists ops c s, sv (run ex_env (mkVariant cd ef rp cr la true cp) ops) s = HeldBy c /\
+    cancel_out (run ex_env (mkVariant cd ef rp cr la true cp) ops) (key ex_env c) = Contact (tgt ex_env s) /\
+    cancel_eff (mkVariant cd ef rp cr la true cp) (run ex_env (mkVariant cd ef rp cr la true cp) ops) (key ex_env c) = Silent.
+Proof.
+  intros cd ef rp cr la cp. exists shutdown_ops, 0, 0.
+  destruct cd, ef, rp, cr, la, cp; vm_compute; repeat split; reflexivity.
+Qed.
+
+(** Claiming only servers with a positive process id (a mutant): behind another pooler the
+    BackendKeyData carries arbitrary i32 values; such a server is never claimed and its borrower
+    cannot cancel. *)
+Lemma claim_refuted : forall cd ef rp cr la sr,
+  exists ops c s, sv (run ex_env_neg (mkVariant cd ef rp cr la sr true) ops) s = HeldBy c /\
+    cancel_out (run ex_env_neg (mkVariant cd ef rp cr la sr true) ops) (key ex_env_neg c) = Silent.
+Proof.
+  intros cd ef rp cr la sr. exists [Checkout 0 0], 0, 0.
+  destruct cd, ef, rp, cr, la, sr; vm_compute; split; reflexivity.
 Qed.
 
 (* ------------------------------------------------------------------ the code as it is *)
@@ -784,3 +840,11 @@ Proof.
   intros t H. rewrite act_is_lookup in H by reflexivity. apply code_targets_holder; auto.
 Qed.
 
+
+Lemma code_shutdown_irrelevant : forall E ops k,
+  cancel_eff code_variant (run E code_variant ops) k = cancel_out (run E code_variant ops) k /\
+  cancel_out (step E code_variant (run E code_variant ops) Shutdown) k = cancel_out (run E code_variant ops) k /\
+  sv (step E code_variant (run E code_variant ops) Shutdown) = sv (run E code_variant ops).
+Proof.
+  intros E ops k. split; [apply cancel_eff_plain; reflexivity|]. split; reflexivity.
+Qed.
